@@ -16,6 +16,7 @@ def gen(out):
     # the linear variants of fixes/C17-expr-no-reparse.diff give the same results
     old_lin = '"{"(balanced_braces()/(![\'{\'|\'}\'][_]))*"}"'
     new_lin = '"{"(balanced_braces()/json_string()/(![\'{\'|\'}\'][_]))*"}"'
+    rescans = body in (old, new)     # '{' is among the plain characters: an unclosed block is re-read and re-scanned
     if body in (old, old_lin):
         skips = False
     elif body in (new, new_lin):
@@ -27,3 +28,4 @@ def gen(out):
     else:
         raise Missing(f"{rel}: rule balanced_braces has an unmodelled body {body}")
     out.append(f"Definition store_skips_strings : bool := {'true' if skips else 'false'}.")
+    out.append(f"Definition store_brace_rescans : bool := {'true' if rescans else 'false'}.")
